@@ -92,8 +92,16 @@ impl<'a> Gen<'a> {
             }
             2 => {
                 self.ind();
-                let (n, e) = (self.name(), self.expr(0));
-                self.out.push_str(&format!("{} = {}\n", n, e));
+                if self.rng.chance(1, 3) {
+                    // multi-name declaration / assignment whose values carry symbols of their own
+                    let (a, b, p) = (self.name(), self.name(), self.name());
+                    let kw = if self.rng.chance(1, 2) { "local " } else { "" };
+                    let v2 = self.expr(1);
+                    self.out.push_str(&format!("{kw}{a}, {b} = function({p}) local {p}2 = {p} end, {{ k = {v2}, f = function() end }}\n"));
+                } else {
+                    let (n, e) = (self.name(), self.expr(0));
+                    self.out.push_str(&format!("{} = {}\n", n, e));
+                }
             }
             3 => {
                 self.ind();
@@ -248,7 +256,8 @@ pub fn valid(rng: &mut Rng) -> String {
 }
 
 fn line_ends(rng: &mut Rng, t: String) -> String {
-    match rng.below(6) {
+    match rng.below(7) {
+        6 => t.replace("\n\n", "\n\r\n").replacen('\n', "\n\r\n", 1),   // LF followed by CRLF
         0 => t.replace('\n', "\r\n"),
         1 => t.replace('\n', "\r"),
         2 => t.trim_end_matches('\n').to_string(),
@@ -328,6 +337,9 @@ pub fn fixed() -> Vec<String> {
         "---@\n---@param \n---@type \n---@class\nlocal z = 1\n---@field".into(),
         "--- Returns `code` here.\n--- *em* **strong** [link](http://x) ``lit``\n--- - item one\n--- - item `two`\n---@param a string the `a` *value*\n---@return number # **count** of `a`\nlocal function f(a) return #a end\n".into(),
         "--- ```lua\n--- local x = 1\n--- ```\n--- tail `c`**b**\nlocal s = \"a `b` c\"\nlocal u = 'x' .. \"y\"\n".into(),
+        "x = 1\n\r\ny = 2".into(),
+        "local a, b = function(p) local z = 1 end, { k = 1, f = function() end }\nx, y = function(q) local w = 2 end, 3\n".into(),
+        "--- a\n\r\n--- b `c`\n\r\nlocal s = 'q\n\r\nlocal t = [[l\n\r\nm]]\n\r".into(),
         "if x then\n  for i = 1, 2 do\n    while true do\n      repeat\n        local q = i\n      until q\n    end\n  end\nend\n".into(),
     ]
 }
